@@ -973,19 +973,10 @@ func liquidityTxInBlock(b *BlockCtx) bool {
 }
 
 func init() {
-	stakeProfile := func() Profile {
-		p := GeneralProfile()
-		for _, k := range []string{"delegate", "unbond", "move", "lock", "declare", "seton", "setoff", "lockstake"} {
-			p.W[k] = 12
-		}
-		p.PEvidence, p.PAbsent, p.PStreak = 0.03, 0.04, 0.03
-		p.PDup, p.PGarbage = 0.02, 0.01
-		return p
-	}
 	register(&PropSpec{ID: "C16", Level: "exploration",
 		Rule: "staking histories (delegations, unbonds incl. the first block after genesis and from the waitlist, moves, locks, stake locks, candidate removals, punishments) on both chain ids; reference: accepted unbond/move/lock transactions determine exactly which frozen-fund entries (height = block + unbond / move period or due block, owner, coin, source, target) must appear; entries disappear only at their due block, releases are credited to the balance, moves only to an existing target candidate; distinct non-trivial case = distinct explanation class (unbond, move, lock, protocol unbond, slash, release, move delivered)",
 		Make: func(r *rand.Rand, seed int64, chain int, tier string) *Scenario {
-			return baseScenario("C16", r, seed, chain, tier, stakeProfile(), func(g *GenCfg, n *NodeCfg) {
+			return baseScenario("C16", r, seed, chain, tier, StakeProfile(), func(g *GenCfg, n *NodeCfg) {
 				g.Frozen = 4 + r.Intn(8)
 				g.NCand = 2 + r.Intn(4)
 				g.LockedAcct = r.Intn(3)
@@ -999,7 +990,7 @@ func init() {
 		Rule: "histories of declarations, delegations, unbonds, status switches, punishments and recalculations; after every block that returns validator updates the set exported is compared with the ranking computed from the exported candidates (online, >= 1000 base coin, best 64; ties free), powers with floor(stake*1e8/sum) min 1, and the update list is applied to the real tendermint ValidatorSet; distinct non-trivial case = distinct (validators, eligible) size class",
 		Make: func(r *rand.Rand, seed int64, chain int, tier string) *Scenario {
 			limits := r.Intn(10) == 0
-			sc := baseScenario("C17", r, seed, chain, tier, stakeProfile(), func(g *GenCfg, n *NodeCfg) {
+			sc := baseScenario("C17", r, seed, chain, tier, StakeProfile(), func(g *GenCfg, n *NodeCfg) {
 				g.NVal = 1 + r.Intn(7)
 				g.NCand = 2 + r.Intn(8)
 				if limits {
@@ -1034,7 +1025,7 @@ func init() {
 	register(&PropSpec{ID: "C18", Level: "exploration",
 		Rule: "vote sets with absence streaks around the 12-of-24 limit, whole-set outages and byzantine evidence against current, offline, dropped and unknown validators (also repeated and on payout blocks); reference window / jail / 5% slash model from the statement compared with exported candidates, frozen funds, validator list and later SetCandidateOnline outcomes; distinct non-trivial case = distinct punishment class",
 		Make: func(r *rand.Rand, seed int64, chain int, tier string) *Scenario {
-			p := stakeProfile()
+			p := StakeProfile()
 			p.PStreak, p.PAbsent, p.PEvidence = 0.08, 0.06, 0.06
 			p.W["seton"] = 20
 			p.TxMax = 4
@@ -1105,4 +1096,15 @@ func classesOf(w *World) []string {
 		}
 	}
 	return out
+}
+
+// StakeProfile is the staking-heavy workload (also a swarm flavour of C09 / C10).
+func StakeProfile() Profile {
+	p := GeneralProfile()
+	for _, k := range []string{"delegate", "unbond", "move", "lock", "declare", "seton", "setoff", "lockstake"} {
+		p.W[k] = 12
+	}
+	p.PEvidence, p.PAbsent, p.PStreak = 0.03, 0.04, 0.03
+	p.PDup, p.PGarbage = 0.02, 0.01
+	return p
 }
